@@ -62,7 +62,11 @@ Rep(p, ix, S, c, acc, st, lab) ==
   IF S = {} \/ (p.hi # -1 /\ c >= p.hi) \/ c > Len(ix) THEN acc
   ELSE LET S1 == UNION {{y \in Ends(p.p, ix, x, st, lab) : y > x} : x \in S} IN      \* progress required: no empty iterations
        Rep(p, ix, S1, c + 1, IF c + 1 >= p.lo THEN acc \cup S1 ELSE acc, st, lab)
-Longest(ix, i) == LET E == {j \in Ends(cfg.pat, ix, i, i, NoLab) : j > i} IN IF E = {} THEN 0 ELSE CHOOSE j \in E : \A k \in E : k <= j
+\* WITHIN w (cfg.within, 0 = none; in the unit of the rows' relative event time rt): a match fits when its last event is at most w after its first
+Rt(ix, i) == Col(evs[ix[i]], "rt").v
+Fits(ix, i, j) == "within" \notin DOMAIN cfg \/ cfg.within = 0 \/ Rt(ix, j - 1) - Rt(ix, i) <= cfg.within * Scale
+\* the longest word of the pattern from position i that fits in WITHIN
+Longest(ix, i) == LET E == {j \in Ends(cfg.pat, ix, i, i, NoLab) : j > i /\ Fits(ix, i, j)} IN IF E = {} THEN 0 ELSE CHOOSE j \in E : \A k \in E : k <= j
 
 \* left-to-right scan with the AFTER MATCH SKIP rule: sequence of <<first, last>> (positions in the partition)
 RECURSIVE Scan(_, _)
